@@ -51,6 +51,22 @@ CLAIMED = {
               "compared with the code body by body incl. TRC; REC, ELL, ARB and the 9-entry RHP (transformation_quad, "
               "rotate, vertex tables) are decided by the Lean spec monitor on probe decks only."),
         design_ref='§8 C03'),
+    'C04': dict(
+        technique='Lean 4 proof (orthogonality identities, quadric transport by ring, frame transport; per transformed card over an ordered field) + model↔code correspondence per transformed card + Lean point monitor over all TR/TRCL spellings',
+        text=("Proved in Lean over any linearly ordered field, for every matrix with orthonormal rows and columns, every "
+              "displacement and every point: transform_point is MCNP's auxiliary→main map and is inverted by B(p−O) "
+              "(motion_invertible); transformation_quad transports quadric coefficients exactly (any matrix: "
+              "quadric_transport); transform_frame transports plane/sphere/cylinder/cone frames (frames_transport); hence "
+              "for PX/PY/PZ/P, SO/S/SX/SY/SZ, C/X.. and CX.., GQ and SQ cards carrying a transformation number the "
+              "converted surface has, at p, MCNP's sense of the card at the auxiliary coordinates of p "
+              "(transformed_card, transformed_gq, transformed_sq — the latter without the F14 sign flip of the "
+              "untransformed path); a one-sheet cone whose axis ends up along ±x/±y/±z gets the apex-plane side that "
+              "accounts for the direction of the axis (flipped_cone_*, the F9 repair). The model is compared with the "
+              "code on transformed cards of every non-torus mnemonic under identity / permutation / Pythagorean / "
+              "generic rotations. TR-card spellings (3/5/6/9/12/13 entries, J placeholders, degrees), matrix "
+              "completion (normalize_matrix*, adjust_matrix), TRCL on cells, implicit surfaces 1000·cell+surface, "
+              "tilted tori and tilted cones are decided by the Lean spec monitor on probe decks, not by theorems."),
+        design_ref='§8 C04'),
     'C06': dict(
         technique='Lean 4 proof (induction over the index ranges; field identities for the dual basis) + model↔code correspondence + Lean point monitor on lattice decks',
         text=("Proved in Lean for any number of ranges of any (also negative or one-element) extent: LatticeBounds.indices "
